@@ -34,6 +34,8 @@ def run_cli(cli, args, stdin_bytes, stdout_mode, pre):
     os.makedirs(jail)
     for p, k in pre:
         full = os.path.join(jail, p.decode())
+        if not inside(base, full):
+            continue
         if k == "d":
             os.makedirs(full, exist_ok=True)
         else:
@@ -144,8 +146,8 @@ def run(ck, rng):
             mstrict, mtarget = ("1" if strict else "0"), target
             args = ["verify"] + (["--strict"] if strict else []) + (["--target-dir", target.decode()] if target else [])
             np_ = node_paths(flat_merged(items), [])
-            pre += [(tjoin(target, p), "d") for p, _, _ in np_ if rng.random() < 0.9 and single_elem(p.split(b"/")[-1])]
-            pre = [(p, k) for p, k in pre if not p.startswith(b"..") and b"\x00" not in p and len(p) < 200]
+            pre += [(tjoin(target, p), "d") for p, _, _ in np_ if rng.random() < 0.9 and all(single_elem(c) for c in p.split(b"/"))]
+            pre = [(p, k) for p, k in pre if not p.startswith(b"/") and not p.startswith(b"..") and b"\x00" not in p and len(p) < 200]
             lib = "hist F,%s;v,%s,%s,%s" % (snap_arg(pre), "1" if strict else "0", hx(target), hx(doc))
         else:
             base = rng.choice(["output", "mkdir", "verify", "template"])
@@ -259,7 +261,7 @@ def run_cli_doc(cli, args, stdin, stdout_mode, pre, doc, via_file):
     os.makedirs(jail)
     for p, k in pre:
         full = os.path.join(jail, p.decode("utf-8", "surrogateescape"))
-        if p == b"in.md":
+        if p == b"in.md" or not inside(base, full):
             continue
         if k == "d":
             os.makedirs(full, exist_ok=True)
